@@ -124,3 +124,20 @@ reg("C10",
     level_text="metrics_eq_ref, metrics_perm and close_idempotent_interleaved are proved in Coq for all result lists / permutations / placements of Close (unbounded) about a Gallina model of Metrics.Add/Close and LatencyMetrics.Add with the 64-bit wraps written out; the model is tied to the Go code on every run by differential execution and each implementation report is judged against the reference computation by a checker defined in Coq.",
     technique="Coq induction + permutation invariance over the model, differential correspondence",
     timeout={"quick": 600, "thorough": 3000})
+
+reg("C13",
+    needs_cli=True,
+    rule="a case = a result sequence (n up to 600) split into 1..6 non-empty files of unequal lengths (incl. "
+         "one-record files), each file in a random encoding (gob/csv/json); observed through (a) "
+         "NewRoundRobinDecoder over DecoderFor per file, drained to the error and called once more, (b) the "
+         "real CLI `vegeta encode -to json f1..fk`, (c) `vegeta report -type json|hist[...]|text` over the "
+         "split vs over the union (percentile fields removed); non-trivial = more than one file",
+    clauses={1: "number of records delivered differs from the total", 2: "an input's records are not delivered in its own order exactly once",
+             3: "a record was delivered that is in no input", 4: "end-of-stream not reported (or not sticky) after the last record",
+             5: "vegeta encode failed on the files", 6: "JSON report of the split differs from the report of the union",
+             7: "hist report of the split differs", 8: "text report of the split differs (latency line excluded)"},
+    assumptions=["estimated percentiles are excluded from the split/union comparison (they depend on the digest's merge history; C11 bounds them)",
+                 "record identity = Seq, unique per case"],
+    level_text="rr_exactly_once, rr_end_only_when_all_exhausted and report_split_invariant are proved in Coq for every number of inputs and all lengths (unbounded) about a Gallina model of NewRoundRobinDecoder, the latter composed with C10's metrics_perm; the exact delivery order predicted by the extracted model is compared with the real decoder and the real `vegeta encode`/`report` commands on every run.",
+    technique="Coq induction over the drain (model) + permutation invariance; differential correspondence incl. the CLI",
+    timeout={"quick": 600, "thorough": 3000})
